@@ -272,3 +272,30 @@ Proof.
     + exists x. split; auto. apply IH; auto.
     + exists x. split; auto. apply IH; auto.
 Qed.
+
+(* extract is a permutation of the leaves *)
+From Coq Require Import Permutation.
+
+Lemma Permutation_flat_map_rev {A B} (g : A -> list B) (l : list A) :
+  Permutation (flat_map g (rev l)) (flat_map g l).
+Proof.
+  induction l as [|x l IH]; [constructor|]. simpl. rewrite flat_map_app. simpl. rewrite app_nil_r.
+  eapply Permutation_trans; [apply Permutation_app_comm|]. apply Permutation_app_head. exact IH.
+Qed.
+
+Lemma Permutation_flat_map_ext {A B} (g h : A -> list B) (l : list A) :
+  (forall x, In x l -> Permutation (g x) (h x)) -> Permutation (flat_map g l) (flat_map h l).
+Proof.
+  induction l as [|x l IH]; intros H; [constructor|]. simpl. apply Permutation_app; [apply H; simpl; auto|].
+  apply IH. intros y Hy. apply H. simpl. auto.
+Qed.
+
+Theorem extract_permutation {A} (s : ystruct A) : Permutation (extract s) (leaves s).
+Proof.
+  induction s as [| a | l IH | l IH | l IH] using ystruct_ind2; try apply Permutation_refl.
+  - rewrite extract_tuple, leaves_tuple. eapply Permutation_trans; [apply Permutation_flat_map_rev|].
+    apply Permutation_flat_map_ext. rewrite Forall_forall in IH. exact IH.
+  - rewrite extract_ylist, leaves_ylist. eapply Permutation_trans; [apply Permutation_flat_map_rev|].
+    apply Permutation_flat_map_ext. rewrite Forall_forall in IH. exact IH.
+  - rewrite extract_ydict, leaves_ydict. apply Permutation_flat_map_ext. rewrite Forall_forall in IH. intros x Hx. apply IH. exact Hx.
+Qed.
